@@ -26,7 +26,14 @@ pub async fn restart_node_service(
     peer_id: PeerId,
     retain_peer_id: bool,
 ) -> Result<()> {
-    let nodes_len = node_registry.nodes.len();
+    // A replacement service is numbered after the highest number recorded so far. The registry can
+    // have gaps (a service that failed to install is not recorded), so its length is not a safe base.
+    let highest_node_number = node_registry
+        .nodes
+        .iter()
+        .map(|node| node.number)
+        .max()
+        .unwrap_or(0);
     let current_node_mut = node_registry
         .nodes
         .iter_mut()
@@ -94,7 +101,7 @@ pub async fn restart_node_service(
         service_manager.start().await?;
     } else {
         debug!("Starting a new node since retain peer id is false.");
-        let new_node_number = nodes_len + 1;
+        let new_node_number = highest_node_number + 1;
         let new_service_name = format!("antnode{new_node_number}");
 
         // example path "log_dir_path":"/var/log/antnode/antnode18"
@@ -222,7 +229,7 @@ pub async fn restart_node_service(
             network_id: current_node_clone.network_id,
             node_ip: current_node_clone.node_ip,
             node_port: None,
-            number: new_node_number as u16,
+            number: new_node_number,
             owner: None,
             peer_id: None,
             peers_args: current_node_clone.peers_args.clone(),
